@@ -64,7 +64,14 @@ BODY = {
     "yield_from": ["yield from range(3)"],
     "yield_assign": ["value = yield 1", "print(value)"],
     "yield_lambda_only": ["f = lambda: (yield)", "return f"],
+    "yield_except_else": ["try:", "    c = 1", "except OSError:", "    yield None", "else:", "    yield c"],
+    "yield_except_finally": ["try:", "    c = 1", "except OSError:", "    yield None", "finally:", "    yield 2"],
+    "yield_if_else_both": ["if cond():", "    yield 1", "else:", "    yield 2"],
+    "yield_nested_then_own": ["def inner():", "    yield 0", "x = inner", "yield x"],
+    "yield_handler2": ["try:", "    pass", "except KeyError:", "    pass", "except OSError:", "    yield 1", "yield 2"],
 }
+# 0-based index (within BODY[kind]) of the line carrying the first OWN yield in source order
+FIRST_YIELD = {"yield_except_else": 3, "yield_except_finally": 3, "yield_if_else_both": 1, "yield_nested_then_own": 3, "yield_handler2": 5}
 RET = {"none": "", "name": " -> int", "attr": " -> a.b.C", "subscript": " -> Dict[str, int]", "tuple_sub": " -> Tuple[int, str]",
        "union": " -> int | None", "string": ' -> "Foo"', "generator": " -> Generator[int, None, None]",
        "iterator": " -> Iterator[int]", "async_iterator": " -> AsyncIterator[int]", "none_const": " -> None"}
@@ -112,9 +119,17 @@ def render_fn(f):
     deco = "@" + f["deco"] + ("" if args is None else "(%s)" % args)
     if f["extra"] == "before":
         lines.append(ind + "@some_decorator")
+    if f["extra"] in ("usefix_before", "marks_around"):
+        lines.append(ind + '@pytest.mark.usefixtures("mark_dep")')
+    if f["extra"] == "indirect_before":
+        lines.append(ind + '@pytest.mark.parametrize("ind_dep", [1], indirect=True)')
     lines.append(ind + deco)
     if f["extra"] == "after":
         lines.append(ind + "@other.decorator(1)")
+    if f["extra"] == "usefix_after":
+        lines.append(ind + '@pytest.mark.usefixtures("mark_dep")')
+    if f["extra"] in ("indirect_after", "marks_around"):
+        lines.append(ind + '@pytest.mark.parametrize("ind_dep", [1], indirect=True)')
     params = list(f["params"] or [])
     if f["place"] in ("class", "nested_class") and "self" not in params:
         params = ["self"] + params
@@ -229,6 +244,13 @@ def check_c03(tier):
                 cpy_view = (d["name"], d["scope"], d["autouse"], d["deps"], d["yield_line"] is not None, d["doc"] is not None)
                 if spec_view != cpy_view:
                     raise C.ToolError("Extract.tla rules and cpyextract disagree for %r: %r vs %r" % (fn, spec_view, cpy_view))
+                n_marks = sum(1 for u in cus if u["kind"] in ("usefixtures", "indirect"))
+                if n_marks != exp["markuses"]:
+                    raise C.ToolError("Extract.tla (MarkUsages) and cpyextract disagree for %r: %r vs %r" % (fn, exp["markuses"], n_marks))
+                if fn["body"] in FIRST_YIELD:
+                    body_start = text.split("\n").index(next(l for l in text.split("\n") if l.strip() == BODY[fn["body"]][0].strip() and l.startswith(" "))) + 1
+                    if d["yield_line"] != body_start + FIRST_YIELD[fn["body"]]:
+                        raise C.ToolError("Extract.tla (YieldOrdinal = first in source order) and cpyextract disagree for %r: line %r" % (fn, d["yield_line"]))
             # (2) the real analyzer
             rdefs, _ = impl_records(snap, path)
             if fn["place"] == "if":
